@@ -42,7 +42,18 @@ def rigidity_case(cid, rng, train_sizes, test_sizes, comp, alpha, with_witness=T
         for row in t:
             if not np.any(row):
                 row[int(rng.integers(d))] = 1
-    for c in range(len(comp)):       # every component block of every test environment non-zero (finite LCPR)
+    # species-blocked features now and then: an environment has content in ONE component block only, the component-wise
+    # rigidities of its other blocks are then infinite (positive, beyond every bound), never zero
+    blocked = preset is None and len(comp) >= 2 and rng.random() < 0.2
+    if blocked:
+        for tt in test:
+            for row in tt:
+                keep = int(rng.integers(len(comp)))
+                lo = int(sum(comp[:keep]))
+                vals = row[lo:lo + comp[keep]].copy()
+                row[:] = 0
+                row[lo:lo + comp[keep]] = vals if np.any(vals) else 1
+    for c in ([] if blocked else range(len(comp))):       # every component block of every test environment non-zero (finite LCPR)
         lo = int(sum(comp[:c]))
         for t in test:
             for row in t:
